@@ -36,7 +36,7 @@ func rewriteName(s string) string {
 
 var topNames = []string{"TestA", "TestAB", "TestB", "TestA1", "TestA10", "TestA2", "Test_x", "TestÄ", "TestC2", "TestC10", "Test"}
 
-var subRaw = []string{"/lead", "../rel", "a//b", "s", "s#01", "1", "10", "2", "9", "sub test", "a b", "x/y", "100%", "[x]", "a-b", "a - b", "é", "#00", "Sub", "deep", ".", "a.b", "%d", "%s", "%%"}
+var subRaw = []string{"11", "/lead", "../rel", "a//b", "s", "s#01", "1", "10", "2", "9", "sub test", "a b", "x/y", "100%", "[x]", "a-b", "a - b", "é", "#00", "Sub", "deep", ".", "a.b", "%d", "%s", "%%"}
 
 func genSubName(t *rapid.T) string {
 	if rapid.IntRange(0, 9).Draw(t, "subkind") < 8 {
@@ -71,7 +71,9 @@ func genNamePool(t *rapid.T, n int) []string {
 		var name string
 		if len(out) > 0 && rapid.IntRange(0, 2).Draw(t, "related") == 0 {
 			base := out[rapid.IntRange(0, len(out)-1).Draw(t, "base")]
-			switch rapid.IntRange(0, 3).Draw(t, "rel") {
+			switch rapid.IntRange(0, 4).Draw(t, "rel") {
+			case 4: // the base name with its last character doubled: T/1 -> T/11, TestA -> TestAA
+				name = base + base[len(base)-1:]
 			case 0:
 				name = base + "/" + genSubName(t)
 			case 1:
@@ -116,7 +118,7 @@ type textOpts struct {
 var fixedLines = []string{
 	"", "", " ", "\t", "a", "b", "abc", "---", "---", "--- ", " ---", "----", "---moredata", "--", "-",
 	"[]", "[", "]", "a\rb", "\rstart", "x\ty", "é", "日本", "\xff", "\xfe", "\x80", "a\xffb", "\xc3", "caf\xe9 au lait", "caf\uFFFD au lait", "\uFFFD", "\x00", "\v", "\f",
-	"{", "}", "key: value", "- item", "#comment", "  indented", "trailing  ", "\"quoted\"", "%d %s %%",
+	"\ufeff", "\ufeffbom first", "{", "}", "key: value", "- item", "#comment", "  indented", "trailing  ", "\"quoted\"", "%d %s %%",
 }
 
 func genLine(t *rapid.T, o textOpts) string {
@@ -140,6 +142,9 @@ func genLine(t *rapid.T, o textOpts) string {
 		default:
 			return fmt.Sprintf("[%s - %d]", name, n)
 		}
+	case k < 71 && o.maxLines != 1: // a line whose length sits on a buffer-size boundary
+		n := rapid.SampledFrom([]int{253, 254, 255, 256, 257, 1023, 1024, 4094, 4095, 4096, 4097, 8192}).Draw(t, "boundarylen")
+		return strings.Repeat(rapid.SampledFrom([]string{"y", "-", "é"}).Draw(t, "boundarych"), n)[:n]
 	case k < 72 && o.long:
 		n := rapid.SampledFrom([]int{65535, 65536, 65537, 70000, 131073}).Draw(t, "longlen")
 		return strings.Repeat(rapid.SampledFrom([]string{"x", "-", "ab"}).Draw(t, "longch"), n)[:n]
